@@ -227,6 +227,8 @@ type WTClient struct {
 	HandlerDone   bool
 	Origin        string
 	RawQuery      *string // overrides the query string entirely (adversarial clients)
+	// ReqMod alters the CONNECT request before it is handed to the server (method, protocol, headers)
+	ReqMod func(*http.Request)
 }
 
 // Start issues the extended CONNECT request; the handler goroutine blocks in
@@ -257,6 +259,9 @@ func (c *WTClient) Start() *Exchange {
 		Header: http.Header{"Sec-Webtransport-Http3-Draft02": {"1"}}, Host: "example.test", RemoteAddr: "10.9.9.9:5555", RequestURI: u.RequestURI(), Body: http.NoBody}
 	for k, v := range c.O.Extra {
 		req.Header[k] = append([]string(nil), v...)
+	}
+	if c.ReqMod != nil {
+		c.ReqMod(req)
 	}
 	req = req.WithContext(ctx)
 	e := &Exchange{Method: req.Method, URL: u.String(), hdr: http.Header{}, cancel: cancel, StartedAt: time.Now(), Req: req}
